@@ -275,7 +275,10 @@ def _st_poly(shs):
     # 'X|Y|Z' is X on top of the polychord 'Y|Z' (the first '|' splits); also four parts
     three = st.builds(lambda x, yz: ["poly", x, yz], _st_plain(shs), two)
     four = st.builds(lambda x, yzw: ["poly", x, yzw], _st_plain(shs), three)
-    return st.one_of(two, two, three, four)
+    # slash chords as the upper and / or the lower part
+    noslash = [sh for sh in shs if "/" not in sh]
+    withslash = st.builds(lambda x, y: ["poly", x, y], _st_slash(noslash) | _st_plain(shs), _st_slash(noslash) | _st_plain(shs))
+    return st.one_of(two, two, three, four, withslash)
 
 
 def sub_slash(ctx, shard, n):
